@@ -249,7 +249,7 @@ def add_case(draw):
         if len(b["edges"]) == dim:
             rel = "random"
     return {"a": a, "b": b, "rel": rel, "w": draw(st.sampled_from([1, 1, -1, 2, 0.5, -2.5, 0])),
-            "explicit_w": draw(st.booleans())}
+            "explicit_w": draw(st.booleans()), "prescale": draw(st.booleans())}
 
 
 def judge_add(case):
@@ -264,6 +264,13 @@ def judge_add(case):
             return {"nontrivial": False, "classes": ["nonhist"]}
         raise Violation("histogram-add-accepts-non-histogram", "")
     equal_edges = a["edges"] == b["edges"]
+    # the operands may have had their scale computed (and cached) before
+    if case.get("prescale"):
+        for h in (ha, hb):
+            try:
+                h.scale()
+            except LenaValueError:
+                pass
     try:
         res = ha.add(hb, w) if (case["explicit_w"] or w != 1) else ha.add(hb)
     except LenaValueError:
@@ -292,7 +299,16 @@ def judge_add(case):
     for op in (ha, hb):
         if gen.shared_mutables(res.bins, op.bins) or gen.shared_mutables(res.edges, op.edges):
             raise Violation("histogram-add-result-shares-lists-with-operand", "%s" % short(case))
-    return {"nontrivial": _nontrivial_hist(a), "classes": ["added", "dim=%d" % dim, "w=%r" % w]}
+    # the scale of the sum is that of its own contents (not a cached scale of an operand)
+    rspec = {"edges": a["edges"], "bins": res.bins}
+    tot = sum(abs(float(c)) * _vol(eds) for _, c, eds in cells_of(rspec))
+    integral = sum(float(c) * _vol(eds) for _, c, eds in cells_of(rspec))
+    got_scale = res.scale()
+    if abs(got_scale - integral) > 1e-9 * tot + 1e-12:
+        raise Violation("histogram-add-result-has-wrong-scale",
+                        "scale() of the sum is %r, its contents integrate to %r; %s" % (got_scale, integral, short(case)))
+    return {"nontrivial": _nontrivial_hist(a), "classes": ["added", "dim=%d" % dim, "w=%r" % w,
+                                                            "prescaled" if case.get("prescale") else "not-prescaled"]}
 
 
 # ---- set_nevents ----------------------------------------------------------
